@@ -101,7 +101,7 @@ var subE2E = ev.Register("storable-e2e",
 		if c.Runtime {
 			startIgnore, startForce = !c.Ignore, !c.Force
 		}
-		env := px.New(px.Opts{Backend: c.Backend, IgnoreCC: startIgnore, ForceDefault: startForce, DefaultMaxAge: time.Hour})
+		env := px.New(px.Opts{Backend: c.Backend, IgnoreCC: startIgnore, ForceDefault: startForce, DefaultMaxAge: time.Hour, Retry416: true})
 		defer env.Close()
 		if c.Runtime {
 			o.Class("policy-set-at-runtime")
